@@ -58,9 +58,57 @@ class Sym:
     (LasWriter(..., do_compress=..., laz_backend=laz_backend) / self._write_to(...)), or, with sink=None, the value
     of do_compress when control reaches the end of the statements."""
 
-    def __init__(self, sinks):
+    RESERVED = {"do_compress", "laz_backend", "backend_given", "is_path", "is_bytes", "suffix"}
+
+    def __init__(self, sinks, fn=None):
         self.sinks = sinks
         self.ext_seen = []
+        # boolean temporaries: a local of `fn` that is bound exactly once, by a plain assignment of a genuinely boolean
+        # expression over the inputs (`backend_was_given = laz_backend is not None`).  name -> Gallina term
+        self.temps = {}
+        self.single = set()
+        if fn is not None:
+            stores = {}
+            for n in ast.walk(fn):
+                if isinstance(n, ast.Name) and isinstance(n.ctx, (ast.Store, ast.Del)):
+                    stores[n.id] = stores.get(n.id, 0) + 1
+                elif isinstance(n, ast.arg):
+                    stores[n.arg] = stores.get(n.arg, 0) + 2
+                elif isinstance(n, (ast.Global, ast.Nonlocal)):
+                    for x in n.names:
+                        stores[x] = stores.get(x, 0) + 2
+                elif isinstance(n, (ast.FunctionDef, ast.AsyncFunctionDef, ast.ClassDef)) and n is not fn:
+                    stores[n.name] = stores.get(n.name, 0) + 2
+                elif isinstance(n, ast.ExceptHandler) and n.name:
+                    stores[n.name] = stores.get(n.name, 0) + 2
+                elif isinstance(n, ast.alias):
+                    nm = (n.asname or n.name).split(".")[0]
+                    stores[nm] = stores.get(nm, 0) + 2
+            self.single = {k for k, v in stores.items() if v == 1 and k not in self.RESERVED and not k.startswith("c14_")}
+
+    def is_boolean(self, e):
+        """is the VALUE of the expression a bool (not merely something with a truth value)?"""
+        if isinstance(e, ast.Constant):
+            return isinstance(e.value, bool)
+        if isinstance(e, ast.Name):
+            return e.id in self.temps
+        if isinstance(e, ast.Compare):
+            return True
+        if isinstance(e, ast.UnaryOp) and isinstance(e.op, ast.Not):
+            return True
+        if isinstance(e, ast.BoolOp):
+            return all(self.is_boolean(v) for v in e.values)
+        if isinstance(e, ast.Call) and isinstance(e.func, ast.Name) and e.func.id == "isinstance":
+            return True
+        return False
+
+    def scoped(self, stmts, at_end):
+        """a branch: temporaries bound inside it are not visible after it"""
+        saved = dict(self.temps)
+        try:
+            return self.block(stmts, at_end)
+        finally:
+            self.temps = saved
 
     # -- values of type option bool
     def value(self, e):
@@ -70,6 +118,8 @@ class Sym:
             return "(Some true)" if e.value else "(Some false)"
         if isinstance(e, ast.Name) and e.id == "do_compress":
             return "do_compress"
+        if isinstance(e, ast.Name) and e.id in self.temps:
+            return f"(Some {self.temps[e.id]})"
         if isinstance(e, ast.Compare):
             return f"(Some {self.ext_test(e)})"
         raise Untranslatable(f"value assigned to do_compress: {_norm(e)}")
@@ -93,6 +143,10 @@ class Sym:
     # -- conditions
     def cond(self, e):
         t = _norm(e)
+        if isinstance(e, ast.Name) and e.id in self.temps:
+            return self.temps[e.id]
+        if isinstance(e, ast.Constant) and isinstance(e.value, bool):
+            return "true" if e.value else "false"
         if t in PATH_TESTS:
             return "is_path"
         if t == "isinstance(source, bytes)":
@@ -155,16 +209,30 @@ class Sym:
             return self.block(rest, at_end)
         if isinstance(s, ast.Assign) and len(s.targets) == 1 and _norm(s.targets[0]) == "do_compress":
             return f"let do_compress := {self.value(s.value)} in\n{self.block(rest, at_end)}"
+        if (isinstance(s, ast.Assign) and len(s.targets) == 1 and isinstance(s.targets[0], ast.Name)
+                and s.targets[0].id in self.single and s.targets[0].id not in self.temps and self.is_boolean(s.value)):
+            try:
+                c = self.cond(s.value)
+            except Untranslatable:
+                c = None        # not a temporary this translator understands: any later use of it fails closed
+            if c is not None:
+                name = s.targets[0].id
+                if "do_compress" not in c:
+                    # depends on the (never re-bound) inputs only: the same value wherever it is used -> inlined
+                    self.temps[name] = c
+                    return self.block(rest, at_end)
+                self.temps[name] = f"c14_t_{name}"
+                return f"let c14_t_{name} := {c} in\n{self.block(rest, at_end)}"
         if isinstance(s, ast.If):
             c = self.cond(s.test) if (self.touches(s) or self.has_sink([s])) else None
             if c is None:
                 return self.block(rest, at_end)
             if self.has_sink(s.body) or self.has_sink(s.orelse):
-                a = self.block(list(s.body) + ([] if self.has_sink(s.body) else rest), at_end)
-                b = self.block(list(s.orelse) + ([] if self.has_sink(s.orelse) else rest), at_end)
+                a = self.scoped(list(s.body) + ([] if self.has_sink(s.body) else rest), at_end)
+                b = self.scoped(list(s.orelse) + ([] if self.has_sink(s.orelse) else rest), at_end)
                 return f"if {c} then ({a})\nelse ({b})"
-            a = self.block(list(s.body), "do_compress")
-            b = self.block(list(s.orelse), "do_compress")
+            a = self.scoped(list(s.body), "do_compress")
+            b = self.scoped(list(s.orelse), "do_compress")
             return f"let do_compress := (if {c} then ({a}) else ({b})) in\n{self.block(rest, at_end)}"
         if isinstance(s, ast.With):
             for it in s.items:
@@ -225,24 +293,25 @@ def gen(repo):
     # ------------------------------------------------------------------ decisions
     def writer_decision():
         body = _body(winit)
-        idx = [i for i, s in enumerate(body) if isinstance(s, ast.If) and _norm(s.test) in ("laz_backend is not None", "laz_backend is None")]
-        _require(len(idx) == 1, "LasWriter.__init__: expected exactly one `if laz_backend is (not) None`")
-        i = idx[0]
-        for s in body[:i]:
-            _require(not Sym.touches(s), "LasWriter.__init__ changes do_compress before the backend test")
-        sym = Sym({})
-        term = sym.block([body[i]], "do_compress")
+        params = [a.arg for a in winit.args.args + winit.args.kwonlyargs]
+        _require("do_compress" in params and "laz_backend" in params, "LasWriter.__init__ parameters")
+        # the decision is whatever happens to do_compress from the entry of __init__ up to the statement that records it
+        # in the header (statements that neither read it into a condition nor store it are skipped by the executor)
+        fl = [i for i, s in enumerate(body) if isinstance(s, ast.Assign) and len(s.targets) == 1
+              and _norm(s.targets[0]) == "self.header.are_points_compressed"]
+        _require(len(fl) == 1 and _norm(body[fl[0]].value) == "do_compress",
+                 "LasWriter.__init__: self.header.are_points_compressed = do_compress")
+        i = fl[0]
+        _require(any(Sym.touches(s) for s in body[:i]), "LasWriter.__init__: no defaulting of do_compress before it is recorded")
+        sym = Sym({}, winit)
+        term = sym.block(body[:i], "do_compress")
         after = body[i + 1:]
         for s in after:
             _require(not Sym.touches(s), "LasWriter.__init__ changes do_compress after the decision")
-        flag = [s for s in after if isinstance(s, ast.Assign) and _norm(s.targets[0]) == "self.header.are_points_compressed"]
-        _require(len(flag) == 1 and _norm(flag[0].value) == "do_compress",
-                 "LasWriter.__init__: self.header.are_points_compressed = do_compress")
         sel = [s for s in after if isinstance(s, ast.If) and _norm(s.test) == "do_compress"]
         _require(len(sel) == 1, "LasWriter.__init__: `if do_compress:` choosing the point writer")
         _require("self._create_laz_backend(" in _norm(sel[0].body[0]) and "UncompressedPointWriter(" in _norm(sel[0].orelse[0]),
                  "LasWriter.__init__: compressed -> LAZ backend writer, otherwise UncompressedPointWriter")
-        _require(after.index(flag[0]) < after.index(sel[0]) or True, "order")
         return ("(* LasWriter.__init__: the value of do_compress after the backend test, as a truth value *)\n"
                 "Definition gen_writer_decision (backend_given : bool) (do_compress : option bool) : bool :=\n"
                 f"  c14_truthy ({term}).\n")
@@ -270,7 +339,7 @@ def gen(repo):
         _require(branch is not None, "open_las: no `mode == 'w'` branch")
         # the leading `if header is None: raise` is not about compression
         stmts = [s for s in branch if not (isinstance(s, ast.If) and _norm(s.test) == "header is None")]
-        sym = Sym({"LasWriter": ["dest", "header", "do_compress", "laz_backend", "closefd", "encoding_errors"]})
+        sym = Sym({"LasWriter": ["dest", "header", "do_compress", "laz_backend", "closefd", "encoding_errors"]}, f)
         term = sym.block(stmts, None)
         _require(len(sym.ext_seen) == 1, "open_las: exactly one extension test expected")
         return ("(* open_las, mode 'w': the do_compress handed to LasWriter *)\n"
@@ -287,12 +356,12 @@ def gen(repo):
         f = fs[0]
         _require([a.arg for a in f.args.args] == ["self", "destination", "do_compress", "laz_backend"], "LasData.write parameters")
         _require([_norm(d) for d in f.args.defaults] == ["None", "None"], "LasData.write defaults are not None")
-        sym = Sym({"self._write_to": ["out_stream", "do_compress", "laz_backend"]})
+        sym = Sym({"self._write_to": ["out_stream", "do_compress", "laz_backend"]}, f)
         term = sym.block(_body(f), None)
         _require(len(sym.ext_seen) == 1, "LasData.write: exactly one extension test expected")
         wt = find_func(cls, "_write_to")
         _require([a.arg for a in wt.args.args] == ["self", "out_stream", "do_compress", "laz_backend"], "_write_to parameters")
-        sym2 = Sym({"LasWriter": ["dest", "header", "do_compress", "laz_backend", "closefd", "encoding_errors"]})
+        sym2 = Sym({"LasWriter": ["dest", "header", "do_compress", "laz_backend", "closefd", "encoding_errors"]}, wt)
         t2 = sym2.block(_body(wt), None)
         _require(t2 == "do_compress", f"LasData._write_to does not hand do_compress through unchanged ({t2})")
         return ("(* LasData.write -> _write_to: the do_compress handed to LasWriter *)\n"
